@@ -216,7 +216,7 @@ type totalOutcome struct {
 	shortAcc bool
 	intr     int
 	wrapPfx  bool
-	byDevice int // requests raised by the memory during a Step
+	byDevice int  // requests raised by the memory during a Step
 	reRun    bool // Run was called again on a CPU parked on a HALT that carries a break point
 }
 
